@@ -71,12 +71,14 @@ func gridE7(i int, jitter int) (int32, int32) {
 	return lat, lng
 }
 
-func llFromE7(lat, lng int32) s2.LatLng { return s2.LatLngFromDegrees(float64(lat)/1e7, float64(lng)/1e7) }
+func llFromE7(lat, lng int32) s2.LatLng {
+	return s2.LatLngFromDegrees(float64(lat)/1e7, float64(lng)/1e7)
+}
 
 type tagKV struct{ K, V string }
 
 type pathMember struct {
-	Point int   // grid point index, or -1
+	Point int      // grid point index, or -1
 	LL    [2]int32 // when Point < 0
 }
 
